@@ -1,4 +1,5 @@
 import Vflow.Proofs.SflowSpec2
+import Vflow.Proofs.SflowTie
 import Vflow.Gen.SflowLayouts
 import Vflow.Gen.Sites
 import Vflow.Spec.Sites
@@ -31,7 +32,7 @@ lengths 0 … 1500, any frame) — the flow sample's source-id index was "skippe
 lost datagram or a lost value (F19a–d).  All four hypotheses are gone.
 -/
 namespace Vflow.C07
-open Vflow Vflow.Sflow Vflow.Packet
+open Vflow Vflow.Sflow Vflow.Packet Vflow.DissectIR
 
 /-- **C07 (datagram)**: every well-formed datagram decodes to exactly the header fields, the agent
 address and, in wire order, every flow sample and counter sample with all fields equal to the wire
@@ -474,5 +475,385 @@ theorem gen_ext_switch_layout :
 sources this model mirrors, re-extracted on every run, is exactly the reviewed inventory in `Spec/Sites.lean`
 (which names the model clause of each).  A changed bound, a new or dropped branch breaks this obligation. -/
 theorem guards_reviewed : Gen.Sites.guardsSflow = Spec.Sites.guardsSflow := by decide +kernel
+
+/-! ## Obligations over the regenerated extraction code (the translator: `Gen.DissectIR`, `Gen.SflowLayouts` rows)
+
+Five of the defects found in this code were wrong field extractions — an offset, a shift, a mask, a width
+(F8, F15, F17, F19b, F19c).  `factgen` therefore translates the extraction code itself: every right-hand side with
+which `packet/*.go` fills a header struct is an `Expr` (`Model/DissectIR.lean`: octets, shifts, masks, `|`, `+`, `*`,
+conversions with their wrap-around, the header-length clamp, slices and the text function applied to them), and the
+sFlow readers that are more than a chain of fixed-width reads are `Row` lists.  The theorems below say that the
+hand-written model computes, for EVERY octet string, what the regenerated terms denote.  They are proved by
+unfolding the evaluator on the generated term (`Proofs/DissectTie.lean`, `Proofs/SflowTie.lean`), so a changed
+offset / shift / mask / width / read order in the source breaks the proof of the field concerned. -/
+
+/-- **Tie (IPv4 fields)**: every field of the model's IPv4 header is the value of the expression the current
+`decodeIPv4Header` assigns to it; the addresses are the octets it slices, rendered by `net.IP.String` -/
+theorem gen_dissect_ipv4 (d : Bytes) :
+    (ipv4At d).version = (field Gen.DissectIR.ipv4 "Version").eval d ∧
+    (ipv4At d).tos = (field Gen.DissectIR.ipv4 "TOS").eval d ∧
+    (ipv4At d).totalLen = (field Gen.DissectIR.ipv4 "TotalLen").eval d ∧
+    (ipv4At d).id = (field Gen.DissectIR.ipv4 "ID").eval d ∧
+    (ipv4At d).flags = (field Gen.DissectIR.ipv4 "Flags").eval d ∧
+    (ipv4At d).fragOff = (field Gen.DissectIR.ipv4 "FragOff").eval d ∧
+    (ipv4At d).ttl = (field Gen.DissectIR.ipv4 "TTL").eval d ∧
+    (ipv4At d).protocol = (field Gen.DissectIR.ipv4 "Protocol").eval d ∧
+    (ipv4At d).checksum = (field Gen.DissectIR.ipv4 "Checksum").eval d ∧
+    (ipv4At d).src = (field Gen.DissectIR.ipv4 "Src").octets d ∧
+    (ipv4At d).dst = (field Gen.DissectIR.ipv4 "Dst").octets d ∧
+    (field Gen.DissectIR.ipv4 "Src").isIpText = true ∧ (field Gen.DissectIR.ipv4 "Dst").isIpText = true :=
+  ⟨DissectTie.ipv4_version d, DissectTie.ipv4_tos d, DissectTie.ipv4_totalLen d, DissectTie.ipv4_id d,
+   DissectTie.ipv4_flags d, DissectTie.ipv4_fragOff d, DissectTie.ipv4_ttl d, DissectTie.ipv4_protocol d,
+   DissectTie.ipv4_checksum d, DissectTie.ipv4_src d, DissectTie.ipv4_dst d, DissectTie.ipv4_addr_text.1,
+   DissectTie.ipv4_addr_text.2⟩
+
+/-- **Tie (IPv4 header length, F17)**: the two length guards of `decodeIPv4Header` are 20 and the model's
+`ihlOctets` of the first octet (`hlen := int(p.data[0]&0x0f) * 4; if hlen < IPv4HLen { hlen = IPv4HLen }`), and the
+transport layer gets `p.data[hlen:]` with the same `hlen` -/
+theorem gen_dissect_ipv4_hlen (d : Bytes) :
+    Gen.DissectIR.ipv4Guards.map (fun g => g.eval d) = [20, ihlOctets (oct d 0)] ∧
+    Gen.DissectIR.ipv4Rest.octets d = d.drop (ihlOctets (oct d 0)) :=
+  ⟨DissectTie.ipv4_guards d, DissectTie.ipv4_rest d⟩
+
+/-- **Tie (IPv4 decoder)**: the model's `decodeIPv4` is: the regenerated guards, then the struct of the regenerated
+expressions and the regenerated hand-over -/
+theorem gen_dissect_ipv4_decoder (d : Bytes) :
+    decodeIPv4 d = if DissectTie.pass d Gen.DissectIR.ipv4Guards then
+        .ok (DissectTie.irIPv4 d, Gen.DissectIR.ipv4Rest.octets d) else .err .ip4Short :=
+  DissectTie.decodeIPv4_ir d
+
+/-- **Tie (IPv6 fields)** -/
+theorem gen_dissect_ipv6 (d : Bytes) :
+    (ipv6At d).version = (field Gen.DissectIR.ipv6 "Version").eval d ∧
+    (ipv6At d).trafficClass = (field Gen.DissectIR.ipv6 "TrafficClass").eval d ∧
+    (ipv6At d).flowLabel = (field Gen.DissectIR.ipv6 "FlowLabel").eval d ∧
+    (ipv6At d).payloadLen = (field Gen.DissectIR.ipv6 "PayloadLen").eval d ∧
+    (ipv6At d).nextHeader = (field Gen.DissectIR.ipv6 "NextHeader").eval d ∧
+    (ipv6At d).hopLimit = (field Gen.DissectIR.ipv6 "HopLimit").eval d ∧
+    (ipv6At d).src = (field Gen.DissectIR.ipv6 "Src").octets d ∧
+    (ipv6At d).dst = (field Gen.DissectIR.ipv6 "Dst").octets d ∧
+    (field Gen.DissectIR.ipv6 "Src").isIpText = true ∧ (field Gen.DissectIR.ipv6 "Dst").isIpText = true :=
+  ⟨DissectTie.ipv6_version d, DissectTie.ipv6_trafficClass d, DissectTie.ipv6_flowLabel d, DissectTie.ipv6_payloadLen d,
+   DissectTie.ipv6_nextHeader d, DissectTie.ipv6_hopLimit d, DissectTie.ipv6_src d, DissectTie.ipv6_dst d,
+   DissectTie.ipv6_addr_text.1, DissectTie.ipv6_addr_text.2⟩
+
+theorem gen_dissect_ipv6_decoder (d : Bytes) :
+    decodeIPv6 d = if DissectTie.pass d Gen.DissectIR.ipv6Guards then
+        .ok (DissectTie.irIPv6 d, Gen.DissectIR.ipv6Rest.octets d) else .err .ip6Short :=
+  DissectTie.decodeIPv6_ir d
+
+/-- **Tie (TCP fields)**: ports, data offset, the three reserved bits (F19c), the nine flag bits, as the closed form
+of the model's `decodeTCP` (`decodeTCP_eq`) has them -/
+theorem gen_dissect_tcp (d : Bytes) :
+    oct d 0 * 256 + oct d 1 = (field Gen.DissectIR.tcp "SrcPort").eval d ∧
+    oct d 2 * 256 + oct d 3 = (field Gen.DissectIR.tcp "DstPort").eval d ∧
+    oct d 12 / 16 = (field Gen.DissectIR.tcp "DataOffset").eval d ∧
+    oct d 12 / 2 % 8 = (field Gen.DissectIR.tcp "Reserved").eval d ∧
+    (oct d 12 * 256 + oct d 13) % 512 = (field Gen.DissectIR.tcp "Flags").eval d :=
+  ⟨DissectTie.tcp_srcPort d, DissectTie.tcp_dstPort d, DissectTie.tcp_dataOffset d, DissectTie.tcp_reserved d,
+   DissectTie.tcp_flags d⟩
+
+theorem gen_dissect_tcp_decoder (d : Bytes) :
+    decodeTCP d = if DissectTie.pass d Gen.DissectIR.tcpGuards then .ok (DissectTie.irTCP d) else .err .tcpShort :=
+  DissectTie.decodeTCP_ir d
+
+/-- **Tie (UDP fields)** -/
+theorem gen_dissect_udp (d : Bytes) :
+    oct d 0 * 256 + oct d 1 = (field Gen.DissectIR.udp "SrcPort").eval d ∧
+    oct d 2 * 256 + oct d 3 = (field Gen.DissectIR.udp "DstPort").eval d :=
+  ⟨DissectTie.udp_srcPort d, DissectTie.udp_dstPort d⟩
+
+theorem gen_dissect_udp_decoder (d : Bytes) :
+    decodeUDP d = if DissectTie.pass d Gen.DissectIR.udpGuards then .ok (DissectTie.irUDP d) else .err .udpShort :=
+  DissectTie.decodeUDP_ir d
+
+/-- **Tie (ICMP fields)**: type, code, `RestHeader = b[4:]` -/
+theorem gen_dissect_icmp (d : Bytes) :
+    oct d 0 = (field Gen.DissectIR.icmp "Type").eval d ∧ oct d 1 = (field Gen.DissectIR.icmp "Code").eval d ∧
+    d.drop 4 = (field Gen.DissectIR.icmp "RestHeader").octets d :=
+  ⟨DissectTie.icmp_type d, DissectTie.icmp_code d, DissectTie.icmp_restHeader d⟩
+
+theorem gen_dissect_icmp_decoder (d : Bytes) :
+    decodeICMP d = if DissectTie.pass d Gen.DissectIR.icmpGuards then .ok (DissectTie.irICMP d) else .err .icmpShort :=
+  DissectTie.decodeICMP_ir d
+
+/-- **Tie (Ethernet fields, `decodeIEEE802`)**: ethertype from octets 12 / 13; the MAC texts of octets 0..6 and
+6..12, set only when the ethertype just computed is not 0x8100 -/
+theorem gen_dissect_ethernet (d : Bytes) :
+    (l2At d).etherType = (field Gen.DissectIR.ieee802 "EtherType").eval d ∧
+    (l2At d).dstMAC = (field Gen.DissectIR.ieee802 "DstMAC").octets d ∧
+    (l2At d).srcMAC = (field Gen.DissectIR.ieee802 "SrcMAC").octets d ∧
+    (field Gen.DissectIR.ieee802 "DstMAC").isHwText = true ∧ (field Gen.DissectIR.ieee802 "SrcMAC").isHwText = true :=
+  ⟨DissectTie.ieee802_etherType d, DissectTie.ieee802_dstMAC d, DissectTie.ieee802_srcMAC d,
+   DissectTie.ieee802_mac_text.1, DissectTie.ieee802_mac_text.2⟩
+
+theorem gen_dissect_ieee802_decoder (d : Bytes) :
+    decodeIEEE802 d = if DissectTie.pass d Gen.DissectIR.ieee802Guards then .ok (DissectTie.irL2 d) else .err .ieeeShort :=
+  DissectTie.decodeIEEE802_ir d
+
+/-- **Tie (802.1Q, F15)**: the VLAN identifier is the value of the regenerated expression (low 12 bits of octets
+14 / 15), and the buffer the source builds with `p.data[12], p.data[13] = p.data[16], p.data[17]` and
+`append(p.data[:14], p.data[18:]...)` — followed symbolically by the translator — is the model's `untag` -/
+theorem gen_dissect_vlan (d : Bytes) :
+    (oct d 14 * 256 + oct d 15) % 4096 = (field Gen.DissectIR.vlan "Vlan").eval d ∧
+    untag d = Gen.DissectIR.vlanData.octets d :=
+  ⟨DissectTie.vlan_id d, DissectTie.vlan_data d⟩
+
+theorem gen_dissect_vlan_decoder (d : Bytes) :
+    decodeVlan d =
+      if DissectTie.pass d Gen.DissectIR.vlanGuards then
+        .ok ({ DissectTie.irL2 (Gen.DissectIR.vlanData.octets d) with vlan := (field Gen.DissectIR.vlan "Vlan").eval d },
+             Gen.DissectIR.ethRest.octets (Gen.DissectIR.vlanData.octets d))
+      else .err .ethShort :=
+  DissectTie.decodeVlan_ir d
+
+/-- **Tie (`Packet.decodeEthernet`)**: guard, `decodeIEEE802`, the 802.1Q branch iff the regenerated condition holds
+of the ethertype it returned, else the regenerated hand-over -/
+theorem gen_dissect_ethernet_decoder (d : Bytes) :
+    decodeEthernet d =
+      if DissectTie.pass d Gen.DissectIR.ethGuards then
+        if Gen.DissectIR.ethTagged.evalWith (fun _ => (DissectTie.irL2 d).etherType) d ≠ 0 then decodeVlan d
+        else .ok (DissectTie.irL2 d, Gen.DissectIR.ethRest.octets d)
+      else .err .ethShort :=
+  DissectTie.decodeEthernet_ir d
+
+/-- **Tie (nothing unrecognised, nothing else set, nothing read beyond the guards)**: every field expression is
+translated; the lists hold exactly the fields of the Go structs; every constant index / slice bound lies below the
+bound of the length guard in front of it -/
+theorem gen_dissect_complete :
+    (allKnown Gen.DissectIR.ieee802 = true ∧ allKnown Gen.DissectIR.vlan = true ∧ allKnown Gen.DissectIR.ipv4 = true ∧
+     allKnown Gen.DissectIR.ipv6 = true ∧ allKnown Gen.DissectIR.tcp = true ∧ allKnown Gen.DissectIR.udp = true ∧
+     allKnown Gen.DissectIR.icmp = true ∧ Gen.DissectIR.eth = [] ∧ Gen.DissectIR.ethCalls = (1, 1)) ∧
+    (Gen.DissectIR.ieee802.map (·.1) = ["EtherType", "DstMAC", "SrcMAC"] ∧ Gen.DissectIR.vlan.map (·.1) = ["Vlan"] ∧
+     Gen.DissectIR.ipv4.map (·.1) =
+       ["Version", "TOS", "TotalLen", "ID", "Flags", "FragOff", "TTL", "Protocol", "Checksum", "Src", "Dst"] ∧
+     Gen.DissectIR.ipv6.map (·.1) =
+       ["Version", "TrafficClass", "FlowLabel", "PayloadLen", "NextHeader", "HopLimit", "Src", "Dst"] ∧
+     Gen.DissectIR.tcp.map (·.1) = ["SrcPort", "DstPort", "DataOffset", "Reserved", "Flags"] ∧
+     Gen.DissectIR.udp.map (·.1) = ["SrcPort", "DstPort"] ∧
+     Gen.DissectIR.icmp.map (·.1) = ["Type", "Code", "RestHeader"]) ∧
+    (needOf Gen.DissectIR.ieee802 ≤ 14 ∧ needOf Gen.DissectIR.vlan ≤ 18 ∧ Gen.DissectIR.vlanData.need ≤ 18 ∧
+     needOf Gen.DissectIR.ipv4 ≤ 20 ∧ needOf Gen.DissectIR.ipv6 ≤ 40 ∧ needOf Gen.DissectIR.tcp ≤ 20 ∧
+     needOf Gen.DissectIR.udp ≤ 8 ∧ needOf Gen.DissectIR.icmp ≤ 5 ∧
+     Gen.DissectIR.ethRest.need ≤ 14 ∧ Gen.DissectIR.ipv6Rest.need ≤ 40 ∧ Gen.DissectIR.ipv4Rest.need ≤ 20) :=
+  ⟨DissectTie.all_known, DissectTie.field_names, DissectTie.within_guards⟩
+
+/-! ### the historical extraction bugs, as the translator would have rendered them
+
+Each `example` writes the expression of the source BEFORE the `fix:` commit as an `Expr` (from the commit's diff) and
+shows on a concrete header that it does not evaluate to the model's field: with that source the obligation above
+could not have been proved. -/
+
+/-- an IPv4 header (IHL 7: eight option octets), DF set, fragment offset 185 -/
+def hdrF8 : Bytes :=
+  [0x47, 0, 0, 36, 0x12, 0x34, 0x40, 0xb9, 64, 17, 0xab, 0xcd, 192, 0, 2, 1, 192, 0, 2, 2, 7, 7, 4, 192, 0, 2, 3, 0]
+
+/-- **F8** (`fix:` 785a914): `Flags: int(p.data[6] & 0x07)` and no `FragOff` at all — on a header with DF set and
+offset 185 the old expression gives 0, the model 2; the missing field is `unrecognised` (value 0), the model 185 -/
+example :
+    (Expr.band (.byte 6) (.lit 7)).eval hdrF8 = 0 ∧ (ipv4At hdrF8).flags = 2 ∧
+    (field [("Version", Expr.shr (.band (.byte 0) (.lit 240)) 4), ("Flags", .band (.byte 6) (.lit 7))] "FragOff").eval hdrF8 = 0 ∧
+    (ipv4At hdrF8).fragOff = 185 ∧ (field Gen.DissectIR.ipv4 "Flags").eval hdrF8 = 2 ∧
+    (field Gen.DissectIR.ipv4 "FragOff").eval hdrF8 = 185 := by decide
+
+/-- **F17** (`fix:` 4d10a36): the header length was the constant `IPv4HLen`: `p.data = p.data[IPv4HLen:]`, no second
+guard — on a header with IHL 7 the old expression gives 20, the model (and the regenerated clamp) 28 -/
+example :
+    (Expr.lit 20).eval hdrF8 = 20 ∧ ihlOctets (oct hdrF8 0) = 28 ∧
+    Gen.DissectIR.ipv4Guards.map (fun g => g.eval hdrF8) = [20, 28] ∧
+    (Expr.octsFrom (.lit 20)).octets hdrF8 ≠ Gen.DissectIR.ipv4Rest.octets hdrF8 := by decide
+
+/-- an Ethernet header with an 802.1Q tag: priority bits 0b101, VLAN 100 (tag control information 0xa064) -/
+def hdrF15 : Bytes := [2, 0, 0, 0, 0, 1, 2, 0, 0, 0, 0, 2, 0x81, 0x00, 0xa0, 0x64, 0x08, 0x00]
+
+/-- **F15** (`fix:` 3455198): `vlan := int(p.data[14])<<8 | int(p.data[15])`, the whole tag — 41060 where the model
+(and the regenerated expression) has the VLAN identifier 100 -/
+example :
+    (Expr.bor (.shl (.byte 14) 8) (.byte 15)).eval hdrF15 = 41060 ∧ (oct hdrF15 14 * 256 + oct hdrF15 15) % 4096 = 100 ∧
+    (field Gen.DissectIR.vlan "Vlan").eval hdrF15 = 100 := by decide
+
+/-- a TCP header whose octet 12 is 0x5b: data offset 5, reserved bits 0b101, NS set -/
+def hdrF19c : Bytes := [1, 187, 199, 56, 0, 0, 0, 1, 0, 0, 0, 2, 0x5b, 0x12, 4, 0, 0, 0, 0, 0]
+
+/-- **F19c** (`fix:` b4acc7b): `Reserved: 0` — the model has the three bits, 5 -/
+example :
+    (Expr.lit 0).eval hdrF19c = 0 ∧ oct hdrF19c 12 / 2 % 8 = 5 ∧ (field Gen.DissectIR.tcp "Reserved").eval hdrF19c = 5 := by
+  decide
+
+/-! ### the sFlow readers -/
+
+/-- **Tie (datagram header)**: the model's `decodeHeader` is the interpretation of the regenerated statements of
+`sfHeaderDecode`: version (≠ 5: `errSFVersionNotSupport`), address type, agent address of 4 octets — 16 iff the type
+is 2 — read with `Reader.Read`, sub-agent id, sequence number, uptime, sample count; the `Header` is built from the
+values by field name -/
+theorem gen_sflow_datagram_header (bs : Bytes) :
+    decodeHeader bs = SflowTie.outcomeAs SflowTie.headerOf (run Gen.SflowLayouts.datagramHeader {} bs) :=
+  SflowTie.decodeHeader_ir bs
+
+/-- **Tie (sample tag and dispatch)**: one iteration of the sample loop is the interpretation of the regenerated
+`getSampleInfo` — enterprise = tag >> 12, format = tag & 0xfff, `errDataLengthUnknown` when the length word is
+missing, an enterprise-specific sample skipped by its length — then the filter and the regenerated `switch` -/
+theorem gen_sflow_sample (f : List Nat) (bs : Bytes) :
+    sampleStep f bs =
+      match run Gen.SflowLayouts.sampleInfo {} bs with
+      | .done ρ r =>
+        if ρ.num "sfTypeFormat" ∈ f then .ok (none, r.drop (ρ.num "sfDataLength"))
+        else if SflowTie.callee Gen.SflowLayouts.sampleDispatch (ρ.num "sfTypeFormat") = some "decodeFlowSample" then
+          (decodeFlowSample r).mapFst (fun s => some (.flow s))
+        else if SflowTie.callee Gen.SflowLayouts.sampleDispatch (ρ.num "sfTypeFormat") = some "decodeFlowCounter" then
+          (decodeCounterSample r).mapFst (fun c => some (.counter c))
+        else .ok (none, r.drop (ρ.num "sfDataLength"))
+      | .fail e => failAs e
+      | .skip _ r => .ok (none, r)
+      | .stuck => .panic :=
+  SflowTie.sampleStep_ir f bs
+
+/-- **Tie (flow sample header, F19b)**: sequence number, source id type (one octet), three octets assembled into
+`SourceIDIdx` by the regenerated expression, sampling rate, pool, drops, input, output, record count -/
+theorem gen_sflow_flow_sample (bs : Bytes) :
+    decodeFlowSample bs =
+      match run Gen.SflowLayouts.flowSample {} bs with
+      | .done ρ r1 =>
+        (match loopN flowRecord (r1.length + 1) (ρ.num "RecordsNo") r1 with
+         | .ok (items, r2) => .ok (SflowTie.flowSampleOf ρ (FlowRecs.ofList items), r2)
+         | .err e => .err e
+         | .panic => .panic
+         | .fuel => .fuel)
+      | .fail e => failAs e
+      | _ => .panic :=
+  SflowTie.decodeFlowSample_ir bs
+
+/-- **Tie (counter sample header)** -/
+theorem gen_sflow_counter_sample (bs : Bytes) :
+    decodeCounterSample bs =
+      match run Gen.SflowLayouts.counterSample {} bs with
+      | .done ρ r1 =>
+        (match loopN counterRecord (r1.length + 1) (ρ.num "RecordsNo") r1 with
+         | .ok (items, r2) => .ok (SflowTie.counterSampleOf ρ (CounterRecs.ofList items), r2)
+         | .err e => .err e
+         | .panic => .panic
+         | .fuel => .fuel)
+      | .fail e => failAs e
+      | _ => .panic :=
+  SflowTie.decodeCounterSample_ir bs
+
+/-- **Tie (the 24-bit index, F19b)**: whatever expression the flow / counter sample header assigns to `SourceIDIdx`
+over the three octets read, its value is their big-endian number (what the model's `readFields [.., 3, ..]` reads) -/
+theorem gen_sflow_source_index (buf : Bytes) (h : buf.length = 3) (ρ : String → Nat) (e : Expr)
+    (he : Row.set "SourceIDIdx" "buf" e ∈ Gen.SflowLayouts.flowSample ∨
+          Row.set "SourceIDIdx" "buf" e ∈ Gen.SflowLayouts.counterSample) :
+    e.evalWith ρ buf = beN buf := by
+  have key : e = .bor (.bor (.byte 2) (.wrap 32 (.shl (.byte 1) 8))) (.wrap 32 (.shl (.byte 0) 16)) := by
+    rcases he with he | he
+    · simp [Gen.SflowLayouts.flowSample] at he; exact he
+    · simp [Gen.SflowLayouts.counterSample] at he; exact he
+  subst key
+  simp only [Expr.evalWith]
+  exact SflowTie.idx24 buf h
+
+/-- **Tie (raw-packet-header record)**: protocol, frame length, stripped, header length (more than 1500:
+`errMaxOutEthernetLength`), then header length plus XDR padding — `(4 - HeaderLength) % 4` in `uint32` — octets
+read with `Reader.Read` unless there are none, cut back to the header length; the dissector runs on these octets -/
+theorem gen_sflow_raw_header (bs : Bytes) :
+    decodeSampledHeader bs =
+      match run Gen.SflowLayouts.sampledHeader {} bs with
+      | .done ρ r =>
+        (match dissect (ρ.octets "Header") (ρ.num "Protocol") with
+         | .ok p => .ok (some p, r)
+         | .err _ => .ok (none, r)
+         | .panic => .panic
+         | .fuel => .fuel)
+      | .fail e => failAs e
+      | _ => .panic :=
+  SflowTie.decodeSampledHeader_ir bs
+
+/-- **Tie (extended router record)**: the length rule (16 or 28, else `errExtRouterDataLength`), `l - 8` octets of
+address type and next hop read at once, `NextHop = buff[4:]`, the two masks -/
+theorem gen_sflow_ext_router (l : Nat) (bs : Bytes) :
+    decodeExtRouter l bs =
+      SflowTie.outcomeAs SflowTie.extRouterOf (run Gen.SflowLayouts.extRouter { nums := [("l", l)] } bs) :=
+  SflowTie.decodeExtRouter_ir l bs
+
+/-- **Tie (extended switch record)**: the four words by field name -/
+theorem gen_sflow_ext_switch (bs : Bytes) :
+    decodeExtSwitch bs =
+      match readFields (widths Gen.SflowLayouts.extSwitch) bs with
+      | some (vs, r) =>
+        .ok (⟨SflowTie.namedVal Gen.SflowLayouts.extSwitch vs "SrcVlan", SflowTie.namedVal Gen.SflowLayouts.extSwitch vs "SrcPriority",
+              SflowTie.namedVal Gen.SflowLayouts.extSwitch vs "DstVlan", SflowTie.namedVal Gen.SflowLayouts.extSwitch vs "DstPriority"⟩, r)
+      | none => .err .eof :=
+  SflowTie.decodeExtSwitch_ir bs
+
+/-- **Tie (flow record dispatch)**: the record loop's `switch rTypeFormat` is the regenerated table — raw header
+(stored only when the dissector returned a packet), extended switch, extended router under the regenerated length
+rule, anything else skipped by its declared length -/
+theorem gen_sflow_flow_dispatch (bs : Bytes) :
+    flowRecord bs =
+      match u32 bs with
+      | none => .err .eof
+      | some (fmt, r1) =>
+        match u32 r1 with
+        | none => .err .eof
+        | some (len, r2) =>
+          if SflowTie.callee Gen.SflowLayouts.flowRecordDispatch fmt = some "decodeSampledHeader" then
+            (decodeSampledHeader r2).mapFst (fun o => o.map FlowRec.raw)
+          else if SflowTie.callee Gen.SflowLayouts.flowRecordDispatch fmt = some "decodeExtSwitchData" then
+            (decodeExtSwitch r2).mapFst (fun s => some (.sw s))
+          else if SflowTie.callee Gen.SflowLayouts.flowRecordDispatch fmt = some "decodeExtRouterData" then
+            if ((Gen.SflowLayouts.flowRecordSkips.lookup fmt).getD (.unrecognised "")).evalWith (fun _ => len) [] ≠ 0 then
+              .ok (none, r2.drop len)
+            else (decodeExtRouter len r2).mapFst (fun x => some (.rtr x))
+          else .ok (none, r2.drop len) :=
+  SflowTie.flowRecord_ir bs
+
+/-- **Tie (counter record dispatch)**: the layout the model decodes a counter record of format `fmt` with is the one
+the regenerated tables select: `switch rTypeFormat` → decoder function → the struct whose `unmarshal` it runs → that
+struct's regenerated read sequence (`gen_counter_layouts`) -/
+theorem gen_sflow_counter_dispatch (fmt : Nat) : counterLayout fmt = SflowTie.genCounterLayout fmt :=
+  SflowTie.counterLayout_ir fmt
+
+/-- **Tie (constants, keys, defaults)**: the dispatch constants by name, the `Records` keys, the default clauses (skip
+by the declared length), what `getSampleInfo` hands back, which struct's `unmarshal` the two plain flow-record
+decoders run, the statements of `decodeSampledHeader` (`SampledHeader.unmarshal`, then `packet.Decoder(h.Header,
+h.Protocol)`, its error swallowed: what `gen_sflow_raw_header` composes), and no unrecognised statement in any of the
+six readers -/
+theorem gen_sflow_tables :
+    Gen.SflowLayouts.consts.lookup "DataFlowSample" = some 1 ∧ Gen.SflowLayouts.consts.lookup "DataCounterSample" = some 2 ∧
+    Gen.SflowLayouts.consts.lookup "SFDataRawHeader" = some 1 ∧ Gen.SflowLayouts.consts.lookup "SFDataExtSwitch" = some 1001 ∧
+    Gen.SflowLayouts.consts.lookup "SFDataExtRouter" = some 1002 ∧
+    Gen.SflowLayouts.consts.lookup "SFGenericInterfaceCounters" = some 1 ∧
+    Gen.SflowLayouts.consts.lookup "SFEthernetInterfaceCounters" = some 2 ∧
+    Gen.SflowLayouts.consts.lookup "SFTokenRingInterfaceCounters" = some 3 ∧
+    Gen.SflowLayouts.consts.lookup "SF100BaseVGInterfaceCounters" = some 4 ∧
+    Gen.SflowLayouts.consts.lookup "SFVLANCounters" = some 5 ∧ Gen.SflowLayouts.consts.lookup "SFProcessorCounters" = some 1001 ∧
+    Gen.SflowLayouts.flowRecordDispatch.map (fun p => (p.1, p.2.2)) = [(1, "RawHeader?"), (1001, "ExtSwitch"), (1002, "ExtRouter")] ∧
+    Gen.SflowLayouts.counterDispatch.map (fun p => (p.1, p.2.2)) =
+      [(1, "GenInt"), (2, "EthInt"), (3, "TRInt"), (4, "VGInt"), (5, "Vlan"), (1001, "Proc")] ∧
+    Gen.SflowLayouts.sampleDispatchDefault = "d.reader.Seek(int64(sfDataLength), 1)" ∧
+    Gen.SflowLayouts.flowRecordDispatchDefault = "r.Seek(int64(rTypeLength), 1)" ∧
+    Gen.SflowLayouts.counterDispatchDefault = "r.Seek(int64(rTypeLength), 1)" ∧
+    Gen.SflowLayouts.sampleInfoReturns = ["sfTypeFormat", "sfDataLength"] ∧
+    Gen.SflowLayouts.flowDecoders = [("decodeExtSwitchData", "ExtSwitchData"), ("decodeExtRouterData", "ExtRouterData")] ∧
+    Gen.SflowLayouts.sampledHeaderDecoder =
+      ["var ( h = new(SampledHeader) err error )", "if err = h.unmarshal(r); err != nil { return nil, err }",
+       "p := packet.NewPacket()", "d, err := p.Decoder(h.Header, h.Protocol)", "if err != nil { return nil, nil }",
+       "return d, nil"] ∧
+    (Gen.SflowLayouts.datagramHeader ++ Gen.SflowLayouts.sampleInfo ++ Gen.SflowLayouts.flowSample ++
+      Gen.SflowLayouts.counterSample ++ Gen.SflowLayouts.sampledHeader ++ Gen.SflowLayouts.extRouter).all Row.known = true :=
+  SflowTie.tables
+
+/-- a flow sample header: sequence 7, source id type 2, index 17, rate 1, pool 2, drops 0, input 3, output 4, no records -/
+def fsF19b : Bytes :=
+  [0, 0, 0, 7, 2, 0, 0, 17, 0, 0, 0, 1, 0, 0, 0, 2, 0, 0, 0, 0, 0, 0, 0, 3, 0, 0, 0, 4, 0, 0, 0, 0]
+
+/-- **F19b** (`fix:` b4acc7b): the three octets were skipped (`r.Seek(3, 1)`) and `SourceIDIdx` did not exist: the
+statement is none of the row shapes, so the translator emits `unrecognised` and the row list is stuck — where the
+model, and the interpretation of the regenerated rows, has the index 17 -/
+example :
+    run [.num "SequenceNo" 4 "err", .num "SourceID" 1 "err", .unrecognised "r.Seek(3, 1)", .num "SamplingRate" 4 "err"]
+      {} fsF19b = .stuck ∧
+    (match decodeFlowSample fsF19b with | .ok (s, _) => s.sourceIDIdx | _ => 0) = 17 ∧
+    (match run Gen.SflowLayouts.flowSample {} fsF19b with | .done ρ _ => ρ.num "SourceIDIdx" | _ => 0) = 17 := by
+  decide
 
 end Vflow.C07
